@@ -299,6 +299,7 @@ struct Obs {
     restarts: u64,
     reboots: u64,
     suspends: u64,
+    answers_without_a_system_clock_read: u64,
     polls: u64,
     order_checks: u64,
     gap_checks: u64,
@@ -389,13 +390,15 @@ impl Sim {
         // C12: the realtime clock is read first, the monotonic clock second, nothing else.
         obs.order_checks += 1;
         // The monotonic reading must follow the realtime reading (how many reads there are is free).
-        let last_real = reads.iter().rposition(|e| e.clk == libc::CLOCK_REALTIME);
-        let last_mono = reads.iter().rposition(|e| e.clk != libc::CLOCK_REALTIME);
+        let is_real = |c: i32| c == libc::CLOCK_REALTIME || c == libc::CLOCK_REALTIME_COARSE;
+        let last_real = reads.iter().rposition(|e| is_real(e.clk));
+        let last_mono = reads.iter().rposition(|e| !is_real(e.clk));
         let order_ok = matches!((last_real, last_mono), (Some(r), Some(m)) if r < m);
         if !order_ok && (prop == "C12") {
             violation(violations, a, "C12", "client-read-order", format!("now() read the clocks in the order {:?} (the monotonic clock must be read after CLOCK_REALTIME)", reads.iter().map(|e| e.clk).collect::<Vec<_>>()), hcase(history));
         }
-        let t_read = reads.iter().find(|e| e.clk == libc::CLOCK_REALTIME).map(|e| e.t);
+        // the instant the client read its system clock (whichever realtime clock id it used)
+        let t_read = reads.iter().find(|e| is_real(e.clk)).map(|e| e.t);
         let st = status_num(r.clock_status);
         *obs.answers_by_status.entry(format!("{}", st)).or_insert(0) += 1;
         let e_ns = r.earliest.tv_sec() as i128 * NS + r.earliest.tv_nsec() as i128;
@@ -409,7 +412,10 @@ impl Sim {
         }
         let t_read = match t_read {
             Some(t) => t,
-            None => return Some((st, half)),
+            None => {
+                obs.answers_without_a_system_clock_read += 1;
+                return Some((st, half));
+            }
         };
         let tol = 2 + (d * tick + UNIT - 1) / UNIT;
         let margin = (t_read - e_ns).min(l_ns - t_read);
@@ -850,7 +856,7 @@ pub fn run(mode: &str, a: &Args) -> Value {
     }
     let mut v = json!({
         "evaluations": evaluations, "distinct": distinct.len(), "polls": obs.polls, "answers_by_status": obs.answers_by_status, "outcomes_by_kind": obs.outcomes_by_kind,
-        "adversarial_instants": obs.adversarial_instants, "min_margin_ns": obs.min_margin_ns.map(|m| m.to_string()), "restarts": obs.restarts, "reboots": obs.reboots, "suspends": obs.suspends,
+        "adversarial_instants": obs.adversarial_instants, "min_margin_ns": obs.min_margin_ns.map(|m| m.to_string()), "restarts": obs.restarts, "reboots": obs.reboots, "suspends": obs.suspends, "answers_without_a_system_clock_read": obs.answers_without_a_system_clock_read,
         "trusted_in_sync_phase": obs.trusted_in_sync_phase, "answers_in_sync_phase": obs.answers_in_sync_phase, "order_checks": obs.order_checks, "gap_checks": obs.gap_checks,
         "msg_checks": obs.msg_checks, "client_errors": obs.client_errors, "violations": violations, "samples": samples,
     });
